@@ -407,7 +407,11 @@ func (w *world) badKey(p *bparty, kind string) []byte {
 	}
 	var xys ps.XYs
 	asn1.Unmarshal(own, &xys)
-	switch p.id % 3 { // which component is spoilt depends on who deviates
+	comp := p.id % 3 // which component is spoilt depends on who deviates
+	if kind == "badkey-zero" {
+		comp = 0 // the identity is a valid point: spoil the component the model replay follows (the first one)
+	}
+	switch comp {
 	case 0:
 		xys.X = mod(xys.X)
 	case 1:
@@ -559,18 +563,7 @@ func (w *world) outgoing(p *bparty, data []byte, bcast bool, to int) {
 			if dv.kind == "badkey-zero" {
 				// the identity is a valid point: the key it yields (own key with that component's exponent 0) is accounted for
 				e := w.mirrorSk(p)
-				idx := 0
-				if w.pkg != "bls" {
-					switch p.id % 3 {
-					case 0:
-						idx = 0
-					case 1:
-						idx = 1
-					default:
-						idx = len(e) - 1
-					}
-				}
-				e[idx] = big.NewInt(0)
+				e[0] = big.NewInt(0)
 				w.registerKey(e)
 			}
 			if c := w.canon(bad); c != nil && w.keyExp[string(c)] != nil {
